@@ -9,18 +9,25 @@ open HeartwoodModel.FetchSched HeartwoodModel.Driver.Util
 structure Dims where
   peers : Nat
   repos : Nat
+  /-- flag `m`: the repositories are not in storage (inventory announcements and the sync task fetch) -/
+  missing : Bool
 
 def dots? (s : String) : Option (List Nat) :=
   if s == "-" then some [] else (splitOn s '.').mapM nat?
 
 def parseCfg (s : String) : Option (Cfg × Dims) :=
-  match splitOn s ',' with
-  | [conc, peers, repos, persist, hv, seed] => do
+  let go (conc peers repos persist hv seed flags : String) : Option (Cfg × Dims) := do
     let conc ← nat? conc; let peers ← nat? peers; let repos ← nat? repos
     let persist ← dots? persist; let hv ← dots? hv; let _ ← nat? seed
+    let fl := if flags == "-" then [] else flags.toList
     if peers == 0 || peers > 9 || repos == 0 || repos > 9 || conc > 64 then none
     else if persist.any (fun p => p == 0 || p > peers) || hv.any (fun v => v == 0 || v > 3) then none
-    else some ({ conc, persist, want := fun v => if hv.contains v then 0 else v }, { peers, repos })
+    else if fl.any (fun ch => ch != 'm' && ch != 'w') then none
+    else some ({ conc, persist, want := fun v => if hv.contains v then 0 else v, wireFilter := fl.contains 'w' },
+               { peers, repos, missing := fl.contains 'm' })
+  match splitOn s ',' with
+  | [conc, peers, repos, persist, hv, seed] => go conc peers repos persist hv seed "-"
+  | [conc, peers, repos, persist, hv, seed, flags] => go conc peers repos persist hv seed flags
   | _ => none
 
 def peer? (d : Dims) (s : String) : Option Nat := do
@@ -31,12 +38,26 @@ def repo? (d : Dims) (s : String) : Option Nat := do
   let n ← nat? s
   if 1 ≤ n ∧ n ≤ d.repos then some n else none
 
+/-- `r=n.n,r=n` → the flattened list of (repo, node) pairs; `-` = empty. -/
+def plan? (d : Dims) (s : String) : Option (List (Nat × Nat)) :=
+  if s == "-" then some [] else do
+    let groups ← (splitOn s ',').mapM (fun g =>
+      match splitOn g '=' with
+      | [r, ns] => do
+        let r ← repo? d r
+        let ns ← (splitOn ns '.').mapM (peer? d)
+        some (ns.map (fun n => (r, n)))
+      | _ => none)
+    some groups.flatten
+
 def parseOp (d : Dims) (t : String) : Option Op :=
-  let (head, perm) : String × Option String :=
+  let (head, perm, plan) : String × Option String × Option String :=
     match splitOn t ':' with
-    | [h] => (h, none)
-    | [h, p] => (h, some p)
-    | _ => ("", none)
+    | [h] => (h, none, none)
+    | [h, p] => (h, some p, none)
+    | [h, p, q] => (h, some p, some q)
+    | _ => ("", none, none)
+  if plan.isSome && head != "w" then none else
   match head.toList, perm with
   | 'i' :: rest, none => (peer? d (String.ofList rest)).map .connIn
   | 'o' :: rest, none => (peer? d (String.ofList rest)).map .connOut
@@ -61,7 +82,12 @@ def parseOp (d : Dims) (t : String) : Option Op :=
     | 's' :: k => let k ← nat? (String.ofList k.reverse); if k = 0 then none else some (.result k true p)
     | 'f' :: k => let k ← nat? (String.ofList k.reverse); if k = 0 then none else some (.result k false p)
     | _ => none
-  | ['w'], some p => (dots? p).map .wake
+  | ['w'], some p => do some (.wake (← dots? p) (← plan? d (plan.getD "-")))
+  | 'v' :: rest, none =>
+    if !d.missing then none else
+    match splitOn (String.ofList rest) '.' with
+    | [r, n] => do some (.invAnn (← repo? d r) (← peer? d n))
+    | _ => none
   | _, _ => none
 
 def insertSorted (a : Nat) : List Nat → List Nat
@@ -83,7 +109,9 @@ def permOk (c : Cfg) (d : Dims) (s : State) : Op → Bool
       | none => ks
     sortNats p == ks
   | .result _ _ p => sortNats p == keys d s
-  | .wake p => sortNats p == keys d s
+  | .wake p plan =>
+    sortNats p == keys d s && (d.missing || plan.isEmpty) &&
+    plan.all (fun rn => match s.sessions rn.2 with | some x => x.isConnected | none => false)
   | _ => true
 
 def showEmit (e : Emit) : String := s!"r{e.rid}n{e.nid}v{e.refs}"
